@@ -46,6 +46,13 @@ def run(chk):
                 cps = [rep[0]] + rng.sample(ps, min(len(ps), rng.randrange(2, 6)))
                 texts.append('%s:%d' % (''.join('%08x' % c for c in cps), rng.choice((0, 1))))
         cases.append('t%d thr %s %d %d %d %s %s' % (k, font, rng.choice((6, 6, 7)), rng.choice((2, 4, 8)), rng.choice((3, 10, 25 if thorough else 10)), rng.choice(('-', '12', '96.5')), ' '.join(texts)))
+    # texts on which shaping gives up (a rule program dies) among ordinary ones: a failed call must leave nothing behind on the shared face
+    for font, dcs in sorted(apiseq.dying_chars(hexe_api, S.FONTS).items()):
+        rep = S.repertoire(vlib.REPO, font)
+        for k2 in range(3 if thorough else 2):
+            dc = rng.choice(dcs)
+            texts = ['%08x:0' % dc, '%08x%08x:0' % (rng.choice(rep), dc), '%08x:0' % rng.choice(rep), '%08x%08x:1' % (dc, rng.choice(rep))]
+            cases.append('t%d thr %s %d %d %d %s %s' % (len(cases), font, rng.choice((6, 7)), rng.choice((2, 4)), 10, rng.choice(('-', '12')), ' '.join(texts)))
     _, il, err = vlib.run_pair(None, hexe, cases, timeout=3000, impl_env=TSAN_ENV, shards=8)
     classes, dist = set(), {}
     for c, l in zip(cases, il):
